@@ -466,7 +466,8 @@ func (c *Ctx) rulesC02x(a *coreAnchors) {
 	}
 	c.floor("C02.pure", 3)
 	f := a.emitEvents
-	sets := c.sitesIn(f, funcKey(a.setActive))
+	// the state writer, or the call of the private helper it was moved into
+	sets := c.standInSites(f, funcKey(a.setActive))
 	for _, spec := range []struct{ name, callee string }{
 		{"re-resolve (resolver.TargetStates)", "iface:RelationsResolver.TargetStates"},
 		{"recompute Exits/Enters (setupExitEnter)", pm + ":Transition.setupExitEnter"},
